@@ -404,9 +404,14 @@ func lexString(l *lexer) stateFn {
 			l.pos += len(delimOpenInterpolate)
 			l.emit(tokenInterpolateOpen)
 			l.mode = modeInterpolate
+			// the interpolated expression has a nesting of its own: its closing brace is
+			// the one that closes no bracket opened inside it, whatever is open around the string
+			parens := l.parens
+			l.parens = 0
 			for ins := lexExpression; ins != nil; {
 				ins = ins(l)
 			}
+			l.parens = parens
 			if l.mode == modeClosed {
 				return nil
 			}
